@@ -172,6 +172,55 @@ def gen_mesh(rng):
             'idmode': mode, 'var_modes': var_modes, 'n_extra': n_extra}
 
 
+def gen_pre(rng, m):
+    """edits through the public update API on existing ids (rows move to other values)"""
+    pre = []
+    nids = m['nodes']['ids']
+    kinds = rng.choice([['nodes'], ['nodes'], ['nodal'], ['nodes', 'nodal']])
+    for kd in kinds:
+        if kd == 'nodes':
+            ids = rng.sample(nids, rng.randrange(1, len(nids) + 1)) if rng.random() < 0.8 else list(nids)
+            pre.append({'k': 'nodes', 'ids': ids,
+                        'rows': [[i % 1000 * 3 + 2, 500 + j, i % 11] for j, i in enumerate(ids)]})
+        elif m['nodal']:
+            k, vids, _, tail = rng.choice(m['nodal'])
+            w = 1
+            for d in tail:
+                w *= d
+            ids = rng.sample(vids, rng.randrange(1, len(vids) + 1))
+            pre.append({'k': 'nodal', 'var': k, 'ids': ids, 'tail': tail,
+                        'rows': [[(i % 100003) * 10 + k * 1000003 + 500000 + j for j in range(w)] for i in ids]})
+    return pre
+
+
+def edited(m, pre):
+    """the mesh the operation sees, as id-keyed content (storage order of the
+    edited tables is irrelevant to the oracle)"""
+    if not pre:
+        return m
+    m2 = json.loads(json.dumps(m))
+    for e in pre:
+        if e['k'] == 'nodes':
+            rows = dict(zip(m2['nodes']['ids'], m2['nodes']['rows']))
+            rows.update(zip(e['ids'], e['rows']))
+            m2['nodes']['rows'] = [rows[i] for i in m2['nodes']['ids']]
+        else:
+            for v in m2['nodal']:
+                if v[0] == e['var']:
+                    rows = dict(zip(v[1], v[2]))
+                    rows.update(zip(e['ids'], e['rows']))
+                    v[2] = [rows[i] for i in v[1]]
+    return m2
+
+
+def pre_l(pre):
+    out = []
+    for e in pre:
+        t = table_l(list(zip(e['ids'], e['rows'])))
+        out.append(f'(EditNodes {t})' if e['k'] == 'nodes' else f'(EditNodal {e["var"]}%nat {t})')
+    return '[' + ';'.join(out) + ']'
+
+
 def gen_ops(rng, m):
     ops = []
     eids = [i for _, ids, _ in m['elems'] for i in ids]
@@ -415,6 +464,10 @@ def oracle(m, op, r):
         for kk in ev0:
             if kk not in seen and any(i in ev0[kk] for i in rel):
                 bad.append(('elemental-variable-dropped', {'var': kk}))
+    if k == 'Surface' and 'boundary' in r:
+        got = sorted(sorted(c) for _, c in rel.values())
+        if got != sorted(r['boundary']):
+            bad.append(('surface-facets-are-not-the-boundary-facets', None))
     for f in r.get('flags', []):
         bad.append(('id-to-position-map', f))
     return bad
@@ -437,7 +490,8 @@ def main(ctx):
                 'shuffled storage, dense/sparse/large ids, unreferenced nodes, nodal variables aligned / '
                 'shuffled / on a subset of nodes, elemental variables per type) x every extraction '
                 'operation with singleton / all / random-order subset / near-empty / missing selections; '
-                'a case is one (mesh, operation); non-trivial = the operation returned a mesh; distinct = '
+                'about a third of the cases run after the mesh was edited through nodes.update / nodal_data.update_data '
+                '(allow_overwrite=True on existing ids); a case is one (mesh, edits, operation); non-trivial = the operation returned a mesh; distinct = '
                 'distinct (mesh, operation, selection)')
     ctx.trusted += [
         'translator /verif/translate/c09_cfg.py (three sites, fail-closed)',
@@ -484,21 +538,29 @@ def main(ctx):
     # cases: corpus, witnesses, generated
     meshes, cases = [], []
 
-    def add(m, op, origin):
+    def add(m, op, origin, pre=None):
         if not meshes or meshes[-1] is not m:
             meshes.append(m)
-        cases.append({'id': len(cases), 'mesh': m, 'mi': len(meshes) - 1, 'op': op, 'origin': origin})
+        cases.append({'id': len(cases), 'mesh': m, 'mi': len(meshes) - 1, 'op': op, 'origin': origin,
+                      'pre': pre or []})
     corpus_dir = lib.VERIF / 'corpus' / PID
     for p in sorted(corpus_dir.glob('*.json')) if corpus_dir.exists() else []:
         c = json.loads(p.read_text())
-        add(c['mesh'], c['op'], 'corpus:' + p.name)
+        add(c['mesh'], c['op'], 'corpus:' + p.name, c.get('pre'))
     for flag, m, op in WITNESSES:
         add(m, op, 'witness:' + flag)
     for _ in range(n_mesh):
         m = gen_mesh(ctx.rng)
-        for op in gen_ops(ctx.rng, m):
+        ops = gen_ops(ctx.rng, m)
+        for op in ops:
             add(m, op, 'random')
-    res = run_impl(ctx, [{'id': c['id'], 'mesh': c['mesh'], 'op': c['op']} for c in cases])
+        # the same operations after the mesh was edited through the public update API
+        if ctx.rng.random() < 0.6:
+            pre = gen_pre(ctx.rng, m)
+            for op in ops:
+                if op['k'] in ('Surface', 'Facets', 'RemoveUseless', 'FirstOrder') or ctx.rng.random() < 0.35:
+                    add(m, op, 'random-after-update', pre)
+    res = run_impl(ctx, [{'id': c['id'], 'mesh': c['mesh'], 'op': c['op'], 'pre': c['pre']} for c in cases])
     herr = [r for r in res.values() if 'error' in r]
     if herr:
         ctx.log('harness errors:', len(herr), herr[0]['error'][-700:])
@@ -520,7 +582,7 @@ def main(ctx):
         ix, ch = ix_ch
         mis = sorted({c['mi'] for c in ch})
         defs = [f'Definition m{mi} : mesh row := {input_mesh_l(meshes[mi])}.' for mi in mis]
-        items = [f'({c["id"]}%nat, check cfg m{c["mi"]} {op_l(c["op"], res[c["id"]])} {obs_l(res[c["id"]])})'
+        items = [f'({c["id"]}%nat, check cfg m{c["mi"]} {pre_l(c["pre"])} {op_l(c["op"], res[c["id"]])} {obs_l(res[c["id"]])})'
                  for c in ch]
         return coq_check(ctx, f'Corr{ix}', defs, items)
     with ThreadPoolExecutor(max_workers=12) as ex:
@@ -539,7 +601,8 @@ def main(ctx):
     for c in usable:
         r, m = res[c['id']], c['mesh']
         ctx.count('op:' + OPNAME[c['op']['k']] + (':raised' if r['raised'] else ''))
-        ctx.case([m['nodes'], m['elems'], m['nodal'], m['elemental'], c['op']], nontrivial=not r['raised'],
+        ctx.count('edited-before:' + ('+'.join(e['k'] for e in c['pre']) if c['pre'] else 'no'))
+        ctx.case([m['nodes'], m['elems'], m['nodal'], m['elemental'], c['pre'], c['op']], nontrivial=not r['raised'],
                  sample={'mesh_kind': m['kind'], 'node_ids': m['nodes']['ids'][:8], 'op': c['op'],
                          'result_node_ids': (r.get('result') or {}).get('nodes', [])[:4]})
     for m in meshes:
@@ -555,14 +618,16 @@ def main(ctx):
     oracle_bad = set()
     for c in usable:
         r = res[c['id']]
-        for what, detail in oracle(c['mesh'], c['op'], r):
+        for what, detail in oracle(edited(c['mesh'], c['pre']), c['op'], r):
             n_or += 1
             oracle_bad.add(c['id'])
             sig = signature(c['op'], what, detail)
             flag = FLAG_OF.get(c['op']['k'])
             if cfg is not None and flag and cfg.get(flag) and 'variable_order' in sig:
                 sig['note'] = 'carried by id in the source, values differ nevertheless'
-            ctx.violation('impl-violation', {'mesh': c['mesh'], 'op': c['op']},
+            if c['pre']:
+                sig['after_update_of'] = '+'.join(e['k'] for e in c['pre'])
+            ctx.violation('impl-violation', {'mesh': c['mesh'], 'pre': c['pre'], 'op': c['op']},
                           'self-contained result; retained entities keep id, geometry and values',
                           {'what': what, 'detail': detail, 'result': r['result']},
                           'C09 oracle on the implementation', found_input=True, signature=sig,
@@ -582,7 +647,7 @@ def main(ctx):
         ctx.notes['cfg_ok'] = all(cfg.values())
     for cid, codes in sorted(bad.items())[:6]:
         c = cases[cid]
-        ctx.violation('correspondence', {'mesh': c['mesh'], 'op': c['op']},
+        ctx.violation('correspondence', {'mesh': c['mesh'], 'pre': c['pre'], 'op': c['op']},
                       'model and implementation return the same mesh',
                       {'differs_in': [CODES.get(k, k) for k in codes], 'impl': res[cid]},
                       'correspondence C09 (Corr.check)', found_input=cid in oracle_bad,
@@ -614,18 +679,19 @@ def replay(path):
     if 'mesh' not in c:
         print('nothing to replay on the implementation:', json.dumps(rp, indent=1)[:3000])
         return 1
-    r = run_impl(ctx, [{'id': 0, 'mesh': c['mesh'], 'op': c['op']}], tag='replay')[0]
+    pre = c.get('pre') or []
+    r = run_impl(ctx, [{'id': 0, 'mesh': c['mesh'], 'op': c['op'], 'pre': pre}], tag='replay')[0]
     if 'error' in r:
         print(r['error'])
         return 1
     print('implementation:', json.dumps({k: r.get(k) for k in ('raised', 'result', 'flags')})[:4000])
-    orc = oracle(c['mesh'], c['op'], r)
+    orc = oracle(edited(c['mesh'], pre), c['op'], r)
     print('property failures on the implementation:', orc)
     lib.coq_make(['C09/Corr.vo', 'C09/gen/MeshCfg.vo'])
     badc = None
     if not ((c['op']['k'] == 'Surface' and 'surf' not in r) or (c['op']['k'] == 'Facets' and 'facets' not in r)):
         badc = coq_check(ctx, 'Replay', [f'Definition m0 : mesh row := {input_mesh_l(c["mesh"])}.'],
-                         [f'(0%nat, check cfg m0 {op_l(c["op"], r)} {obs_l(r)})'])
+                         [f'(0%nat, check cfg m0 {pre_l(pre)} {op_l(c["op"], r)} {obs_l(r)})'])
     print('model vs implementation (codes):', badc)
     print('property', 'VIOLATED' if orc else 'holds', 'on this input')
     return 1 if orc or badc else 0
